@@ -155,7 +155,7 @@ def tree_index(tree: Any, i: int) -> Any:
     return jax.tree_util.tree_map(lambda x: x[i], tree)
 
 
-POLICIES = ["masked", "masked_low", "masked_high", "uniform", "adversarial"]
+POLICIES = ["masked", "masked_low", "masked_high", "uniform", "adversarial", "late_adversarial"]
 
 
 def choose(policy: str, rng: np.random.Generator, mask: Optional[np.ndarray], n: int, t: int) -> int:
@@ -169,6 +169,12 @@ def choose(policy: str, rng: np.random.Generator, mask: Optional[np.ndarray], n:
         return int(idx[0])
     if policy == "masked_high":
         return int(idx[-1])
+    if policy == "late_adversarial":
+        # follow the mask for a while (so that the episode develops: the snake grows, items get packed, agents connect), then play a masked-out action
+        bad = np.flatnonzero(~mask)
+        if len(bad) and t >= 4 and rng.random() < 0.25:
+            return int(rng.choice(bad))
+        return int(rng.choice(idx))
     if policy == "adversarial":
         # legal for a while, then prefer masked-out actions
         bad = np.flatnonzero(~mask)
